@@ -567,16 +567,15 @@ func WellFormed(s Str) bool {
 
 // ToUpper is 15.5.4.18 with simple (single code unit) mappings. asserted is
 // false when s contains a code unit whose uppercase mapping is governed by
-// SpecialCasing.txt, or a surrogate pair (15.5.4.16 maps "characters", i.e.
-// code units, one by one; whether a supplementary-plane letter is mapped is
-// not asserted).
+// SpecialCasing.txt. 15.5.4.16 treats the code units as BMP code points:
+// surrogate code units are transferred unchanged.
 func ToUpper(s Str) (out Str, asserted bool) {
 	out = make(Str, len(s))
 	asserted = true
 	for i, u := range s {
 		out[i] = u
 		if isSurrogate(u) {
-			asserted = false
+			// "Surrogate code points are directly transferred from S to L without any mapping."
 			continue
 		}
 		if member(upperSpecial[:], u) {
@@ -597,7 +596,7 @@ func ToLower(s Str) (out Str, asserted bool) {
 	for i, u := range s {
 		out[i] = u
 		if isSurrogate(u) {
-			asserted = false
+			// "Surrogate code points are directly transferred from S to L without any mapping."
 			continue
 		}
 		if member(lowerSpecial[:], u) {
